@@ -319,7 +319,7 @@ Proof.
 Qed.
 
 Lemma key_refines j : In j keys ->
-  (nabs n' j, c_ev B keys n c x j) = key_step (B j) t (c_bc c) j (nabs n j) (ops_on j (c_ops c)).
+  (nabs n' j, c_ev B keys n c x j) = key_step (B j) t (c_bc c j) j (nabs n j) (ops_on j (c_ops c)).
 Proof.
   intros Hin. destruct HL as [HG [L1 [L2 [L3 [L4 L5]]]]].
   pose proof inset_continuing as Hic. pose proof inset_created as Hicr. unfold t in *.
@@ -332,13 +332,13 @@ Proof.
       { unfold c_store_rc. rewrite (created_not_live s e E1 E3), E1, E3, Eb. reflexivity. }
       assert (Hf : c_first keys n c x s = false) by (unfold c_first; rewrite (created_not_live s e E1 E3); reflexivity).
       unfold c_res. rewrite Hrc, Hf. cbn [option_map].
-      pose proof (refines_eval_partial (B (se_key e)) (c_t c) (c_bc c) e (n_vals n (se_key e)) (ops_on (se_key e) (c_ops c))
+      pose proof (refines_eval_partial (B (se_key e)) (c_t c) (c_bc c (se_key e)) e (n_vals n (se_key e)) (ops_on (se_key e) (c_ops c))
                     (c_inset keys n c x s) E3 Eb) as R.
       fold (c_nv n c (se_key e)) in R. fold (c_args n c (se_key e)) in R.
       rewrite (Hic s e E1 E3 Eb) in R |- *. specialize (R (fun H => H)).
       destruct (slot_eval _ _ _ _ _ e) as [e' ev]. cbn [fst snd]. symmetry. exact R.
     + (* the key left every dictionary *)
-      pose proof (refines_remove_partial (B (se_key e)) (c_t c) (c_bc c) e (n_vals n (se_key e)) (ops_on (se_key e) (c_ops c)) E3 Eb) as R.
+      pose proof (refines_remove_partial (B (se_key e)) (c_t c) (c_bc c (se_key e)) e (n_vals n (se_key e)) (ops_on (se_key e) (c_ops c)) E3 Eb) as R.
       fold (c_nv n c (se_key e)) in R. unfold slot_remove in R |- *. cbn [fst snd] in *. rewrite R. unfold abs_entry. cbn [se_started]. reflexivity.
   - unfold nabs. rewrite Ej. destruct (c_bound n c j) eqn:Eb.
     + (* the key appeared *)
@@ -348,7 +348,7 @@ Proof.
       { unfold c_store_rc. rewrite (created_alloc j Hadk). reflexivity. }
       assert (Hf : c_first keys n c x (x_alloc x j) = true) by (unfold c_first; rewrite (created_alloc j Hadk); reflexivity).
       unfold c_res. rewrite Hrc, Hf, (Hicr j Hadk). cbn [option_map se_key slot_create].
-      pose proof (refines_create_partial (B j) (c_t c) (c_bc c) j (n_vals n j) (ops_on j (c_ops c)) None I Eb) as R.
+      pose proof (refines_create_partial (B j) (c_t c) (c_bc c j) j (n_vals n j) (ops_on j (c_ops c)) None I Eb) as R.
       fold (c_nv n c j) in R. fold (c_args n c j) in R.
       destruct (slot_eval (B j) (c_t c) (c_args n c j) true true (slot_create (B j) j)) as [e' ev]. cbn [fst snd]. symmetry. exact R.
     + (* absent before and after *)
@@ -487,31 +487,35 @@ Proof.
 Qed.
 
 Lemma idle_key j : In j keys -> c_required keys n c = false ->
-  key_step (B j) (c_t c) (c_bc c) j (nabs n j) (ops_on j (c_ops c)) = (nabs n j, no_ev).
+  key_step (B j) (c_t c) (c_bc c j) j (nabs n j) (ops_on j (c_ops c)) = (nabs n j, no_ev).
 Proof.
   intros Hin Hreq. unfold c_required in Hreq. apply orb_false_iff in Hreq. destruct Hreq as [Hreq Hbc].
   apply orb_false_iff in Hreq. destruct Hreq as [Hps Hops].
   assert (Hnil : c_ops c = []) by (destruct (c_ops c); [reflexivity|discriminate]).
+  assert (Hbcj : forall j', In j' keys -> any_mod (c_bc c j') = false).
+  { intros j' Hj'. destruct (any_mod (c_bc c j')) eqn:E; [|reflexivity].
+    assert (Hex : existsb (fun j0 => any_mod (c_bc c j0)) keys = true) by (apply existsb_exists; exists j'; auto). congruence. }
   rewrite Hnil. change (ops_on j []) with (@nil kop).
-  apply untouched_cycle_identity; [apply nabs_kinv; exact Hin|exact Hbc|].
+  apply untouched_cycle_identity; [apply nabs_kinv; exact Hin|apply Hbcj; exact Hin|].
   unfold nabs. destruct (n_slot n j) as [s|] eqn:Ej; [|exact I].
   destruct HL as [HG [L1 [_ [L3 _]]]]. destruct (L1 j s Ej) as [_ [e [E1 [E2 E3]]]]. rewrite E1. unfold abs_entry. rewrite E3.
   cbn [k_inst]. subst j. rewrite (wake_z_due _ _ (c_t c) t_lt).
   destruct (L3 s e E1 E3) as [se [S1 [S2 [S3 S4]]]]. rewrite <- S3.
   (* no pushes happened, so the parent's slot after the tick is the one before; it is not t, and it bounds e_next *)
   assert (Hpushed : c_pushed keys n c = []).
-  { unfold c_pushed. assert (Hall : forall j', any_mod (c_args n c j') = false).
-    { intros j'. unfold c_args, c_nv. rewrite Hnil. change (ops_on j' []) with (@nil kop). rewrite new_vals_nil.
+  { unfold c_pushed. assert (Hall : forall j', In j' keys -> any_mod (c_args n c j') = false).
+    { intros j' Hj'. unfold c_args, c_nv. rewrite Hnil. change (ops_on j' []) with (@nil kop). rewrite new_vals_nil.
       assert (Hz : forall l : list (option Z),
                  existsb (fun p : option Z * bool => is_some (fst p) && snd p) (map (fun v : option Z => (v, false)) l) = false).
       { induction l as [|v r IH]; [reflexivity|]. cbn [map existsb fst snd]. rewrite IH, andb_false_r. reflexivity. }
-      unfold any_mod in *. rewrite existsb_app, Hbc, orb_false_r. apply Hz. }
-    assert (Hfm : forall l : list Z,
+      pose proof (Hbcj j' Hj') as Hb'. unfold any_mod in *. rewrite existsb_app, Hb', orb_false_r. apply Hz. }
+    assert (Hfm : forall l : list Z, (forall k, In k l -> In k keys) ->
                flat_map (fun j0 => match n_slot n j0 with
                                    | Some s1 => if any_mod (c_args n c j0) then [s1] else []
                                    | None => [] end) l = []).
-    { induction l as [|k r IH]; [reflexivity|]. cbn [flat_map]. rewrite IH. destruct (n_slot n k); [rewrite Hall|]; reflexivity. }
-    apply Hfm. }
+    { induction l as [|k r IH]; intros Hsub; [reflexivity|]. cbn [flat_map]. rewrite IH by (intros k' Hk'; apply Hsub; right; exact Hk').
+      destruct (n_slot n k); [rewrite Hall by (apply Hsub; left; reflexivity)|]; reflexivity. }
+    apply Hfm. auto. }
   unfold c_sch2 in Hps. rewrite Hpushed in Hps. cbn [fold_left] in Hps.
   destruct Hok as [Htick _]. unfold do_tick in Hps. rewrite Htick in Hps. cbn [s_pslot] in Hps.
   apply Z.leb_gt.
